@@ -531,6 +531,18 @@ def run_views(spec, res):
                                                     {'view': want}, d),
                              'store.py:build_topology_views')
                     return
+        # residents: a compartment's own process sees its own compartment,
+        # also after the compartment was moved or created by a division
+        for ev in ctx.log:
+            if ev[0] == 'invoke' and ev[1] == 'grow' and ev[6] is not None:
+                path, vals = ev[6]
+                if deq(ev[5], vals):
+                    res.fail('view.resident', 'resident process of %r at t=%r '
+                             'sees %r, its compartment holds %r'
+                             % (path, ev[2], ev[5], vals),
+                             'store.py:build_topology_views')
+                    return
+                res.label('resident_view')
         res.nontrivial = bool(op_times) and any(
             len(set(ts)) >= 2 for ts in calls.values())
         if not calls:
